@@ -122,6 +122,7 @@ type Term struct {
 	SV    *Var
 	Tab   []uint64
 	Multi bool // support is not a single enumerable variable (and not empty)
+	NoEval bool // contains an uninterpreted function or real arithmetic: cannot be evaluated under a model
 
 	defined bool // emitted to the solver as define-fun (per solver generation)
 	gen     int
@@ -181,6 +182,14 @@ func (tt *TermTable) mk(t *Term) *Term {
 	t.ID = len(tt.all)
 	tt.all = append(tt.all, t)
 	tt.tab[k] = t
+	if t.Op == OpUF || t.S.K == SReal {
+		t.NoEval = true
+	}
+	for _, a := range t.Args {
+		if a.NoEval {
+			t.NoEval = true
+		}
+	}
 	tt.computeTable(t)
 	if t.Op != OpVar && t.Op != OpConst && t.SV != nil && (t.S.K == SBool || t.S.W <= 64) {
 		// constant on the variable's whole (static) domain: fold
